@@ -9,7 +9,7 @@ use std::str::FromStr;
 use temporal_rs::error::ErrorKind;
 use temporal_rs::options::ArithmeticOverflow;
 use temporal_rs::partial::{PartialDate, PartialDateTime, PartialTime, PartialZonedDateTime};
-use temporal_rs::{MonthCode, PlainDate, PlainDateTime, PlainTime, TimeZone, ZonedDateTime};
+use temporal_rs::{Calendar, MonthCode, PlainDate, PlainDateTime, PlainTime, TimeZone, ZonedDateTime};
 use tmc_ref::r1::*;
 use tmc_ref::r10::*;
 use tmc_ref::r2::{Overflow, Ymd};
@@ -404,6 +404,69 @@ impl Space for Zoned {
     }
 }
 
+/// with() on receivers of every calendar: the supplied field is the field of the result, the others
+/// come from the receiver (laws, no calendar model): years incl. zero and negative ones, months, days.
+struct CalendarWith;
+const CW_RECEIVERS: [(i32, u8, u8); 4] = [(2024, 3, 15), (2020, 2, 28), (1900, 1, 20), (1, 6, 15)];
+const CW_YEARS: [i32; 9] = [-400, -5, -1, 0, 1, 2, 1900, 2024, 5000];
+impl Space for CalendarWith {
+    fn name(&self) -> String {
+        "c17.calendar_with".into()
+    }
+    fn len(&self) -> u64 {
+        (crate::checks::c16::CALENDARS.len() * CW_RECEIVERS.len()) as u64
+    }
+    fn block(&self) -> u64 {
+        1
+    }
+    fn eval(&self, i: u64, out: &mut Out) {
+        let (cal_id, class) = crate::checks::c16::CALENDARS[i as usize / CW_RECEIVERS.len()];
+        let (y, m, d) = CW_RECEIVERS[i as usize % CW_RECEIVERS.len()];
+        let cal = Calendar::from_str(cal_id).expect("calendar");
+        let Oc::Ok(recv) = call(|| PlainDate::try_new(y, m, d, cal.clone())) else { return };
+        let Oc::Ok((ry, rm, rcode, rd, rmiy)) = call_inf(|| (recv.year(), recv.month(), recv.month_code(), recv.day(), recv.months_in_year())) else { return };
+        out.nontrivial += 1;
+        // calendars whose years all have the same months and whose arithmetic year runs through zero
+        let regular = class == 0 && !matches!(cal_id, "hebrew");
+        for (ovn, ov) in [("constrain", Some(ArithmeticOverflow::Constrain)), ("reject", Some(ArithmeticOverflow::Reject)), ("absent", None)] {
+            let base = || vec![("calendar", cal_id.to_string()), ("receiver", format!("{y}-{m}-{d}")), ("receiver_fields", format!("{ry}/{}/{rd}", rcode.as_str())), ("overflow", ovn.to_string())];
+            for wy in CW_YEARS {
+                let got = call(|| recv.with(PartialDate::new().with_year(Some(wy)), ov).map(|r| (r.year(), r.month_code().as_str().to_string(), r.day())));
+                let attrs = || { let mut a = base(); a.push(("with", format!("year={wy}"))); a };
+                match &got {
+                    Oc::Ok((gy, gcode, gd)) => {
+                        out.law("with({year}): the result has that year", *gy == wy, attrs);
+                        out.law("with({year}): month code and day come from the receiver unless clamped", (gcode == rcode.as_str() && *gd == rd) || (!regular || rd > 28) && *gd <= rd, attrs);
+                    }
+                    Oc::Err(ErrorKind::Range, _) => {
+                        out.law("with({year}): an ordinary year is accepted", !(regular && rd <= 28), attrs);
+                    }
+                    _ => {
+                        out.lockstep("with({year})", &Ok(()), &got.clone().map(|_| ()), |_, _| true, attrs);
+                    }
+                }
+            }
+            for wd in [1u8, 15, 28] {
+                let got = call(|| recv.with(PartialDate::new().with_day(Some(wd)), ov).map(|r| (r.year(), r.month_code().as_str().to_string(), r.day())));
+                let attrs = || { let mut a = base(); a.push(("with", format!("day={wd}"))); a };
+                out.lockstep("with({day})", &Ok((ry, rcode.as_str().to_string(), wd)), &got, |a, b| a == b, attrs);
+            }
+            for wm in 1..=rmiy.min(12) as u8 {
+                let got = call(|| recv.with(PartialDate::new().with_month(Some(wm)).with_day(Some(1)), ov).map(|r| (r.year(), r.month(), r.day())));
+                let attrs = || { let mut a = base(); a.push(("with", format!("month={wm},day=1"))); a };
+                out.lockstep("with({month, day: 1})", &Ok((ry, wm, 1u8)), &got, |a, b| a == b, attrs);
+            }
+            // identity
+            let got = call(|| recv.with(PartialDate::new().with_year(Some(ry)).with_month(Some(rm)).with_day(Some(rd)), ov));
+            out.lockstep("with(own year, month, day) is the identity", &Ok(()), &got, |_, b| *b == recv, || { let mut a = base(); a.push(("with", "own fields".into())); a });
+            let _ = rcode;
+        }
+    }
+    fn describe(&self) -> serde_json::Value {
+        json!({"calendars": crate::checks::c16::CALENDARS.len(), "receivers": CW_RECEIVERS, "years": CW_YEARS})
+    }
+}
+
 pub fn spaces(env: &Env) -> Vec<Box<dyn Space>> {
     let _ = env;
     vec![
@@ -413,6 +476,7 @@ pub fn spaces(env: &Env) -> Vec<Box<dyn Space>> {
         Box::new(TimePartial),
         Box::new(DateTimePartial { recv: receivers() }),
         Box::new(Zoned),
+        Box::new(CalendarWith),
     ]
 }
 
